@@ -10,3 +10,4 @@ INVARIANT OrdConsistent
 PROPERTY SpentNeverFires
 PROPERTY SpecIsLegal
 PROPERTY NextDatagramProcessed
+PROPERTY ArityTransparent
